@@ -86,7 +86,7 @@ def r2_placeholders(R) -> None:
     R.check(kws == sorted(FIELDS) and not call.args and all(k.arg for k in call.keywords), fn.q, f'format-fields:{kws}', 'format() supplies exactly the template fields',
             f'format() supplies {kws}, templates need {sorted(FIELDS)}', where=fn.fi.where)
     # template selection (gated value of the receiver of .format)
-    se = SymExec(fn.fi.node)
+    se = fn.symexec()
     recv = canon(se.value(_stmt_of(fn.fi.node, se, call), call.func.value))
     ok = isinstance(recv, ast.IfExp) and text(recv.test) == 'with_type_hints' and text(recv.body) == 'MODEL_TEMPLATE_TYPED' and text(recv.orelse) == 'MODEL_TEMPLATE_UNTYPED'
     if not ok and not any(isinstance(x, ast.Name) and x.id in ('MODEL_TEMPLATE_TYPED', 'MODEL_TEMPLATE_UNTYPED') for x in ast.walk(recv)):
@@ -175,7 +175,7 @@ def r4_converter(R) -> None:
     f = Fn(R, q)
     sym_param = (f.fi.params() + ['symbols'])[0]
     call = _template_call(f.fi, FIELDS)
-    se = SymExec(f.fi.node, inline_helpers=False)
+    se = f.symexec()
     eqv = canon(se.value(_stmt_of(f.fi.node, se, call), [k.value for k in call.keywords if k.arg == 'equations'][0]))
     where = f'{f.fi.module.relpath}:{call.lineno}'
     # an empty block becomes `pass`
